@@ -3,18 +3,35 @@
                            eval_number returns Integer(v) whenever eval_i64 returns Ok(v) (embedding of trees)
       C15_shared_grammar   the token tables of eval_f64 and eval_number are the same (same lexer rows, same
                            precedences, same function table), so both parse every input to trees of the same shape
-    The numeric clauses (eval_number vs eval_f64 exactly below 2^53, eval_complex and eval_decimal vs eval_f64
-    within 1e-9) compare floating-point / library results: tested on every run by evaluating one rendering
-    with two or more evaluators (exploration-level support), not proved. *)
+      C15_number_f64_ring  on every tree over literals / the placeholder, unary minus, + - * whose f64 evaluation keeps
+                           every intermediate finite, below 2^53 in magnitude and not -0, eval_number's numeric value
+                           is exactly eval_f64's result (Flocq: sums, differences and products of integers below 2^53
+                           are the correctly rounded results, signs of zero included)
+    The other numeric clauses (eval_number vs eval_f64 on / % ^ and functions, eval_complex and eval_decimal vs
+    eval_f64 within 1e-9) compare floating-point / library results: tested on every run by evaluating one
+    rendering with two or more evaluators (exploration-level support), not proved. *)
 From Coq Require Import List ZArith Bool.
 From SC Require Import Base.Res Base.F64 Base.RustInt Base.Oracle Base.Num Lang.Syntax Lang.Lexer Lang.Parser
-  Eval.EvalI64 Eval.EvalNum Gen.Tables Proofs.Agree.
+  Eval.EvalI64 Eval.EvalF64 Eval.EvalNum Gen.Tables Proofs.Agree Proofs.AgreeF64.
 Import ListNotations.
 
 Theorem C15_i64_number :
   forall (L : libm) a v, int_lang L a = true -> eval_i64 L a = Ok v -> eval_num L (embed a) = Ok (Int v).
 Proof. exact embed_i64_number. Qed.
 Print Assumptions C15_i64_number.
+
+Theorem C15_number_f64_ring :
+  forall (L : libm) (a : node number),
+    ring_lang a = true -> AllFine L (fl a) ->
+    exists n v, eval_num L a = Ok n /\ eval_f64 L (fl a) = Ok v /\ num_f64 n = v.
+Proof. exact ring_agree. Qed.
+Print Assumptions C15_number_f64_ring.
+
+(** non-vacuity: 3*4 - (-5) satisfies the hypotheses and evaluates to Integer(17) *)
+Example C15_ring_example : forall L : libm,
+  let t := NBin BSubtract (NBin BMultiply (NNum (Int 3)) (NNum (Int 4))) (NUn UNegative (NNum (Int 5))) in
+  ring_lang t = true /\ AllFine L (fl t) /\ eval_num L t = Ok (Int 17).
+Proof. exact ring_example. Qed.
 
 Fixpoint rows_eqb (a b : list row) : bool :=
   match a, b with
